@@ -178,3 +178,19 @@ package push
 //@   ensures [reported_accepted_iff_subscribed_and_not_denied] haskey(result, id) &&
 //@       result[id] == (old(ghost.sm_has[ival(value)][str(topic)]) && old(ghost.sm_val[ival(value)][str(topic)]) != nil)
 //@   ensures [stored_once_and_the_poller_woken_once_per_accepted_message] calls(Append) == ite(result[id], 1, 0) && calls(response) == ite(result[id], 1, 0)
+
+// ---- client side: a batch is handed to the topic's callback message by message, in batch order ---
+//
+// (assumed) invokes one callback with one message
+//@ func (*Prosumer).call
+//@   havoc
+//@   modifies ghost.*
+
+//@ func (*Prosumer).dispatch
+//@   prop C19
+//@   flag typeassert=panic
+//@   havoc
+//@   requires p != nil
+//@   modifies ghost.*
+//@   atcall call [each_message_of_the_batch_in_order_to_the_callback_of_its_topic] same(arg1, callback) &&
+//@       same(arg2.Data, messages[rangeidx()].Data) && arg2.From == messages[rangeidx()].From
